@@ -189,7 +189,7 @@ ZoneTarget(n) == "zone:" \o ToString(n)
 
 \* close the obligations of the previous frame
 Settle(cs) ==
-  IF ~cs.obl THEN cs
+  IF ~cs.obl \/ cs.nstall > 0 THEN cs      \* during a stall the client may be waiting on its own write
   ELSE LET cnt(w) == Cardinality({j \in 1..Len(cs.seen) : cs.seen[j] = w})
            c1 == IF \E w \in cs.must : cnt(w) = 0 THEN CV(cs, "MissedNotification") ELSE cs
            c2 == IF \E w \in cs.mustnot : cnt(w) > 0 THEN CV(c1, "SpuriousNotification") ELSE c1
@@ -469,9 +469,11 @@ CStep(cs0, ev) ==
                                                     THEN [cs.cmds[i] EXCEPT !.ss = FALSE, !.sent = IF ev.ended /\ @ = 1 THEN 2 ELSE @]
                                                     ELSE cs.cmds[i]]]
        [] k = "cb"        -> Callback(cs, ev)
-       [] k = "subapi"    -> [Settle(cs) EXCEPT !.subs = IF \E i \in 1..Len(@) : @[i].who = ev.who /\ @[i].target = ev.target /\ @[i].kind = ev.kind
+       \* (un)subscribing from inside a callback happens in the middle of a round of notifications:
+       \* the round is not closed by it; the other subscribers are still owed their call
+       [] k = "subapi"    -> [(IF ev.incb THEN cs ELSE Settle(cs)) EXCEPT !.subs = IF \E i \in 1..Len(@) : @[i].who = ev.who /\ @[i].target = ev.target /\ @[i].kind = ev.kind
                                                            THEN @ ELSE Append(@, [who |-> ev.who, target |-> ev.target, kind |-> ev.kind])]
-       [] k = "unsubapi"  -> [Settle(cs) EXCEPT !.subs = SelectSeq(@, LAMBDA x : ~(x.who = ev.who /\ x.target = ev.target /\ x.kind = ev.kind))]
+       [] k = "unsubapi"  -> [(IF ev.incb THEN cs ELSE Settle(cs)) EXCEPT !.subs = SelectSeq(@, LAMBDA x : ~(x.who = ev.who /\ x.target = ev.target /\ x.kind = ev.kind))]
        [] k = "snapshot"  -> Snapshot(Settle(cs), ev)
        [] k = "quiesce"   -> Quiesce(cs)
        [] OTHER           -> cs
